@@ -296,12 +296,11 @@ theorem doDynamicHuffman_total (c : Cutter) (hc : c.OK) (isFirst : Bool) :
         obtain ⟨i5, y5, p5, s5, l15⟩ := hrl
         have hby : bits5.bytes = c.bits.bytes := by rw [y5, y4, y3, y2, y1]
         have hle2 := mem_le_of_getD l15
-        refine BlockTotal.transport (c' := ⟨bits5, c.maxEncodedLen, c.decodedLen, c.endCodeBits, c.endCodeNBits, lh, c.dHuff⟩)
-          (doHuffman_total _ ⟨i5, by rw [hby]; exact hc.max, hgl.shape, hc.d⟩ isFirst _ _ ?_ ?_ ?_ ?_) rfl
-          (by rw [hby]) (by show c.bits.pos ≤ bits5.pos; omega)
-        · simp; omega
-        · simp; omega
-        · intro x hx; exact hle2 x (mem_extract_of hx)
-        · intro x hx; exact hle2 x (mem_extract_of hx)
+        have hfinal := doHuffman_total ⟨bits5, c.maxEncodedLen, c.decodedLen, c.endCodeBits, c.endCodeNBits, lh, c.dHuff⟩
+          ⟨i5, by show c.maxEncodedLen ≤ bits5.bytes.size; rw [hby]; exact hc.max, hgl.shape, hc.d⟩ isFirst
+          (lengths2.extract 0 (257 + v1)) (lengths2.extract (257 + v1) n) (by simp; omega) (by simp; omega)
+          (by intro x hx; exact hle2 x (mem_extract_of hx)) (by intro x hx; exact hle2 x (mem_extract_of hx))
+        exact hfinal.transport rfl (by show bits5.bytes.size = c.bits.bytes.size; rw [hby])
+          (by show c.bits.pos ≤ bits5.pos; omega)
 
 end WuffsVerif.Flate.Cut
